@@ -8,7 +8,7 @@
     [valid] the type registry's validity test; hashes and array ids are non-empty lowercase hex. *)
 From Coq Require Import List Arith NArith Ascii String Bool.
 From RV Require Import Base.Decimal Base.Lit Model.Scratch
-  Proofs.ScratchStr Proofs.ScratchRun Proofs.ScratchReunite Proofs.ScratchMain Proofs.ScratchGroup.
+  Proofs.ScratchStr Proofs.ScratchRun Proofs.ScratchReunite Proofs.ScratchMain Proofs.ScratchGroup Proofs.ScratchClear.
 Import ListNotations.
 Open Scope list_scope.
 
@@ -215,6 +215,103 @@ Theorem C32_stage_if_absent_refuted :
   /\ Instance.second_attempt shipped = local Instance.V Instance.f Instance.attempt2.
 Proof. exact Instance.if_absent_refuted. Qed.
 
+(** 6. Executors that judge a finished job by its scratch files (docker.iter_job_status:
+    succeeded = output exists -- DockerExecutor and every executor's debug mode;
+    AWSBatchExecutor._can_override_failed), and run HISTORIES on one scratch directory.
+    [collect_by_output]: output present -> result, else the error file.
+    [fixed] removes a previous output whenever oneshot is about to call the task; [shipped] only
+    when the cache was consulted (the remove sits inside `if output_path and not args.no_cache`).
+    For the clearing shapes: after a run exactly one of output / error exists, the output iff the
+    run succeeded, and the reported outcome is the local one of THIS run. *)
+Theorem C32_output_iff_success_fixed :
+  forall V pbytes (dump : obj V -> pbytes) load f valid tb_of,
+  (forall o, load (dump o) = Some o) ->
+  forall prefix nc (j : job V) (fs : fs_t pbytes),
+  hexstr (j_hash j) = true -> prior_ok V pbytes load f valid fixed prefix nc j fs ->
+  let fs' := fst (remote_single V pbytes dump load f valid tb_of fixed prefix nc j fs) in
+  collect_by_output V pbytes load fixed prefix (j_hash j) fs' = local V f j /\ one_file pbytes fixed prefix fs' (j_hash j).
+Proof. exact by_output_fixed. Qed.
+
+(** with --no-cache, for ANY previous content of the scratch directory (any history of runs) *)
+Theorem C32_output_iff_success_fixed_no_cache :
+  forall V pbytes (dump : obj V -> pbytes) load f valid tb_of,
+  (forall o, load (dump o) = Some o) ->
+  forall prefix (j : job V) (fs : fs_t pbytes),
+  hexstr (j_hash j) = true ->
+  let fs' := fst (remote_single V pbytes dump load f valid tb_of fixed prefix true j fs) in
+  collect_by_output V pbytes load fixed prefix (j_hash j) fs' = local V f j /\ one_file pbytes fixed prefix fs' (j_hash j).
+Proof. exact by_output_fixed_no_cache. Qed.
+
+(** what holds as shipped: the runs that consult the cache *)
+Theorem C32_output_iff_success_shipped_partial :
+  forall V pbytes (dump : obj V -> pbytes) load f valid tb_of,
+  (forall o, load (dump o) = Some o) ->
+  forall prefix (j : job V) (fs : fs_t pbytes),
+  hexstr (j_hash j) = true -> prior_ok V pbytes load f valid shipped prefix false j fs ->
+  let fs' := fst (remote_single V pbytes dump load f valid tb_of shipped prefix false j fs) in
+  collect_by_output V pbytes load shipped prefix (j_hash j) fs' = local V f j /\ one_file pbytes shipped prefix fs' (j_hash j).
+Proof. exact by_output_shipped_cached. Qed.
+(* NOT PROVED for [shipped] with nc = true: refuted, see C32_stale_output_no_cache_refuted. *)
+
+Theorem C32_array_output_iff_success_fixed :
+  forall V pbytes (dump : obj V -> pbytes) load f valid tb_of,
+  (forall o, load (dump o) = Some o) ->
+  forall prefix aid (jobs : list (job V)) nc envs (fs0 : fs_t pbytes) inc before i j,
+  hexstr aid = true -> HexJobs V jobs -> HashDeterminesArgs V jobs ->
+  (forall i, i < List.length jobs -> get_index fixed (envs i) None = IdxOk (N.of_nat i)) ->
+  (forall j, In j jobs -> prior_ok V pbytes load f valid fixed prefix nc j fs0) ->
+  Forall (fun i => i < List.length jobs) before ->
+  nth_error jobs i = Some j ->
+  let fs := run_seq V pbytes dump load f valid tb_of fixed prefix aid nc envs before
+              (write_array V pbytes dump fixed prefix aid jobs inc fs0) in
+  let fs' := fst (run_elem V pbytes dump load f valid tb_of fixed prefix aid nc (envs i) fs) in
+  collect_by_output V pbytes load fixed prefix (j_hash j) fs' = local V f j /\ one_file pbytes fixed prefix fs' (j_hash j).
+Proof. exact array_by_output_fixed. Qed.
+
+Theorem C32_array_output_iff_success_shipped_partial :
+  forall V pbytes (dump : obj V -> pbytes) load f valid tb_of,
+  (forall o, load (dump o) = Some o) ->
+  forall prefix aid (jobs : list (job V)) envs (fs0 : fs_t pbytes) inc before i j,
+  hexstr aid = true -> HexJobs V jobs -> HashDeterminesArgs V jobs ->
+  (forall i, i < List.length jobs -> get_index shipped (envs i) None = IdxOk (N.of_nat i)) ->
+  (forall j, In j jobs -> prior_ok V pbytes load f valid shipped prefix false j fs0) ->
+  Forall (fun i => i < List.length jobs) before ->
+  nth_error jobs i = Some j ->
+  let fs := run_seq V pbytes dump load f valid tb_of shipped prefix aid false envs before
+              (write_array V pbytes dump shipped prefix aid jobs inc fs0) in
+  let fs' := fst (run_elem V pbytes dump load f valid tb_of shipped prefix aid false (envs i) fs) in
+  collect_by_output V pbytes load shipped prefix (j_hash j) fs' = local V f j /\ one_file pbytes shipped prefix fs' (j_hash j).
+Proof. exact array_by_output_shipped_cached. Qed.
+
+(** REFUTED as shipped: history (ok; raise) of one call with --no-cache (cache_scope NONE / CSE):
+    the failing second run is reported with the first run's stale result, and both files exist. *)
+Theorem C32_stale_output_no_cache_refuted :
+  History.ok_then_raise shipped true History.all_valid = (CDone History.V (Leaf 5), true)
+  /\ local History.V History.f_raise History.j = CReject History.V (Leaf 99).
+Proof. exact History.shipped_no_cache_refuted. Qed.
+
+(** REFUTED for the shape without any remove, even when the cache is consulted and rejects the
+    stale value; the fixed shape (and the shipped one on the cached path) report the exception *)
+Theorem C32_never_clear_refuted :
+  History.ok_then_raise never false History.none_valid = (CDone History.V (Leaf 5), true)
+  /\ History.ok_then_raise never true History.all_valid = (CDone History.V (Leaf 5), true)
+  /\ local History.V History.f_raise History.j = CReject History.V (Leaf 99).
+Proof. exact History.never_refuted. Qed.
+
+Theorem C32_history_fixed_agrees :
+  History.ok_then_raise fixed true History.all_valid = (CReject History.V (Leaf 99), false)
+  /\ History.ok_then_raise fixed false History.none_valid = (CReject History.V (Leaf 99), false)
+  /\ History.ok_then_raise shipped false History.none_valid = (CReject History.V (Leaf 99), false).
+Proof. exact History.fixed_agrees. Qed.
+
+Print Assumptions C32_output_iff_success_fixed.
+Print Assumptions C32_output_iff_success_fixed_no_cache.
+Print Assumptions C32_output_iff_success_shipped_partial.
+Print Assumptions C32_array_output_iff_success_fixed.
+Print Assumptions C32_array_output_iff_success_shipped_partial.
+Print Assumptions C32_stale_output_no_cache_refuted.
+Print Assumptions C32_never_clear_refuted.
+Print Assumptions C32_history_fixed_agrees.
 Print Assumptions C32_attempts_eq_local.
 Print Assumptions C32_attempts_after_failures.
 Print Assumptions C32_stage_if_absent_refuted.
